@@ -190,6 +190,10 @@ pub fn generate(rng: &mut Rng, tier: &str) -> Case {
             program.files.push(catalogue::SrcFile { name: format!("x_{}", f.name), text: f.text });
         }
     }
+    // a file that declares no module: compiled like the others, absent from every request, wherever it is listed
+    if rng.chance(1, 6) && program.files.len() <= 3 {
+        program.files.push(catalogue::SrcFile { name: "blank.slice".into(), text: catalogue::blank_text(rng) });
+    }
     let n = program.files.len();
     // how each file is passed
     let mut files = Vec::new();
